@@ -19,51 +19,90 @@
 (* Variant "asfound": the stream reader turns ANY Recv error into end of   *)
 (* stream (streamreader/reader.go:28-31): the server commits the prefix.   *)
 (* "repaired": a Recv error other than io.EOF fails the read.              *)
+(*                                                                         *)
+(* Early verdicts (C11 over a stream): the server may end the call before  *)
+(* the client has sent everything -- an empty key is refused on the header *)
+(* ("reject_emptykey"), a write that finds no space on any root is refused *)
+(* after the first chunk reached the disk ("reject_nospace").  Once the    *)
+(* verdict has reached the client (after `p` units were consumed), the     *)
+(* next Send on the stream returns io.EOF and the verdict itself is what   *)
+(* CloseAndRecv returns.  SendVariant "asfound": the stream writer returns *)
+(* the io.EOF of Send, which the client maps to ErrUnknown; "repaired":    *)
+(* it fetches the verdict.                                                 *)
 (***************************************************************************)
 EXTENDS Integers, Sequences, FiniteSets, TLC, Json
 
-CONSTANTS Lens, Kinds, Variant
+CONSTANTS Lens, Kinds, Variant, SendVariant
 
 Chunk == 2
+CopyBuf == 32     \* the server hands the content to the file in pieces of 32 KiB
 
 VARIABLES len, kind, p,       \* the scenario
           consumed,           \* units of the source the client has read
           sent,               \* units the server has received (full chunks, or everything after Close)
           cstate, sstate,     \* "run" | "err" | "ok"     /   "recv" | "eof" | "fail" | "commit"
-          key                 \* "old" | "new" | "prefix" (a truncated content was committed)
+          key,                \* "old" | "new" | "prefix" (a truncated content was committed)
+          arrived,            \* the server's early verdict has reached the client
+          class               \* error class the client call returned: "" | "ok" | "fault" | "emptykey" | "nospace" | "unknown"
 
-vars == <<len, kind, p, consumed, sent, cstate, sstate, key>>
+vars == <<len, kind, p, consumed, sent, cstate, sstate, key, arrived, class>>
+
+IsReject == kind \in {"reject_emptykey", "reject_nospace"}
+Verdict == IF kind = "reject_emptykey" THEN "emptykey" ELSE "nospace"
+SendFails == IF SendVariant = "asfound" THEN "unknown" ELSE Verdict
 
 Init ==
   /\ len \in Lens /\ kind \in Kinds /\ p \in 0..len
   /\ (kind = "none" => p = len)
-  /\ consumed = 0 /\ sent = 0 /\ cstate = "run" /\ sstate = "recv" /\ key = "old"
+  /\ (kind = "reject_nospace" => p >= CopyBuf)    \* the server writes (and fails) once its copy buffer is full
+  /\ consumed = 0 /\ sent = 0 /\ cstate = "run" /\ sstate = "recv" /\ key = "old" /\ arrived = FALSE /\ class = ""
 
 (* the client consumes one more unit; a full chunk is sent as soon as the writer holds one *)
 ClientCopy ==
-  /\ cstate = "run" /\ consumed < len /\ ~(kind # "none" /\ consumed = p)
+  /\ cstate = "run" /\ consumed < len
+  /\ IF IsReject THEN consumed = p => arrived ELSE ~(kind # "none" /\ consumed = p)
   /\ consumed' = consumed + 1
-  /\ sent' = IF (consumed + 1) % Chunk = 0 THEN consumed + 1 ELSE sent
-  /\ UNCHANGED <<len, kind, p, cstate, sstate, key>>
+  /\ IF (consumed + 1) % Chunk = 0 /\ arrived
+     THEN cstate' = "err" /\ class' = SendFails /\ UNCHANGED sent           \* Send returns io.EOF
+     ELSE /\ sent' = IF (consumed + 1) % Chunk = 0 THEN consumed + 1 ELSE sent
+          /\ UNCHANGED <<cstate, class>>
+  /\ UNCHANGED <<len, kind, p, sstate, key, arrived>>
 
 (* the fault: the client returns the error to its caller; the stream is never half-closed *)
 ClientFault ==
-  /\ cstate = "run" /\ kind # "none" /\ consumed = p
-  /\ cstate' = "err"
-  /\ UNCHANGED <<len, kind, p, consumed, sent, sstate, key>>
+  /\ cstate = "run" /\ kind # "none" /\ ~IsReject /\ consumed = p
+  /\ cstate' = "err" /\ class' = "fault"
+  /\ UNCHANGED <<len, kind, p, consumed, sent, sstate, key, arrived>>
+
+(* the early verdict: the server ends the call ...                    *)
+ServerReject ==
+  /\ IsReject /\ sstate = "recv"
+  /\ kind = "reject_nospace" => sent >= CopyBuf
+  /\ sstate' = "rejected"
+  /\ UNCHANGED <<len, kind, p, consumed, sent, cstate, key, arrived, class>>
+(* ... and the client, which has consumed p units by then, learns of it *)
+VerdictArrives ==
+  /\ sstate = "rejected" /\ ~arrived /\ consumed = p /\ cstate = "run"
+  /\ arrived' = TRUE
+  /\ UNCHANGED <<len, kind, p, consumed, sent, cstate, sstate, key, class>>
 
 (* end of the source: Close sends the remainder, half-closes, and waits *)
 ClientClose ==
-  /\ cstate = "run" /\ consumed = len /\ kind = "none"
-  /\ sent' = len /\ cstate' = "closing"
-  /\ UNCHANGED <<len, kind, p, consumed, sstate, key>>
+  /\ cstate = "run" /\ consumed = len
+  /\ \/ /\ kind = "none"
+        /\ sent' = len /\ cstate' = "closing"
+        /\ UNCHANGED <<len, kind, p, consumed, sstate, key, arrived, class>>
+     \/ /\ IsReject /\ arrived
+        /\ cstate' = "err"
+        /\ class' = IF len % Chunk # 0 THEN SendFails ELSE Verdict     \* the remainder is sent first; else CloseAndRecv
+        /\ UNCHANGED <<len, kind, p, consumed, sent, sstate, key, arrived>>
 
 (* the server's stream reader: io.EOF after a half-close, another error after a fault *)
 ServerEnd ==
-  /\ sstate = "recv" /\ cstate \in {"closing", "err"}
+  /\ sstate = "recv" /\ cstate \in {"closing", "err"} /\ ~IsReject
   /\ sstate' = IF cstate = "closing" THEN "eof"
                ELSE IF Variant = "asfound" THEN "eof" ELSE "fail"
-  /\ UNCHANGED <<len, kind, p, consumed, sent, cstate, key>>
+  /\ UNCHANGED <<len, kind, p, consumed, sent, cstate, key, arrived, class>>
 
 (* store.Set finished copying: content record, version record: the key changes *)
 ServerCommit ==
@@ -71,11 +110,12 @@ ServerCommit ==
   /\ key' = IF sent = len /\ cstate = "closing" THEN "new" ELSE "prefix"
   /\ sstate' = "commit"
   /\ cstate' = IF cstate = "closing" THEN "ok" ELSE cstate
-  /\ UNCHANGED <<len, kind, p, consumed, sent>>
+  /\ class' = IF cstate = "closing" THEN "ok" ELSE class
+  /\ UNCHANGED <<len, kind, p, consumed, sent, arrived>>
 
-Finished == (sstate \in {"commit", "fail"}) /\ cstate \in {"ok", "err"}
+Finished == (sstate \in {"commit", "fail", "rejected"}) /\ cstate \in {"ok", "err"}
 Done == Finished /\ UNCHANGED vars
-Next == ClientCopy \/ ClientFault \/ ClientClose \/ ServerEnd \/ ServerCommit \/ Done
+Next == ClientCopy \/ ClientFault \/ ClientClose \/ ServerReject \/ VerdictArrives \/ ServerEnd \/ ServerCommit \/ Done
 Spec == Init /\ [][Next]_vars
 
 (* ====================== C10 ====================== *)
@@ -84,9 +124,14 @@ NoTrace == Finished => (cstate = "err" => key = "old") /\ (cstate = "ok" => key 
 (* nobody ever sees a truncated content *)
 NeverPartial == key # "prefix"
 
-Scenario == [len |-> len, kind |-> kind, p |-> p, client |-> cstate, key |-> key, received |-> sent]
-Emit == Finished' /\ ~Finished => PrintT(<<"B", ToJson(<<[len |-> len, kind |-> kind, p |-> p, client |-> cstate', key |-> key', received |-> sent']>>)>>)
+(* ====================== C11 over a stream ====================== *)
+(* a refused upload returns the server's verdict, not something else *)
+VerdictPreserved == Finished /\ IsReject => class = Verdict
+
+Scenario == [len |-> len, kind |-> kind, p |-> p, client |-> cstate, key |-> key, received |-> sent, class |-> class]
+Emit == Finished' /\ ~Finished => PrintT(<<"B", ToJson(<<[len |-> len, kind |-> kind, p |-> p, client |-> cstate', key |-> key', received |-> sent', class |-> class']>>)>>)
 Cex == PrintT(<<"X", ToJson(<<Scenario>>)>>)
 XNoTrace == NoTrace \/ ~Cex
 XNeverPartial == NeverPartial \/ ~Cex
+XVerdictPreserved == VerdictPreserved \/ ~Cex
 =============================================================================
